@@ -1,7 +1,7 @@
 // Harness for property C14 (tlparser / tlgen).
 //
 //	gen <tier> <outdir> <repo>   generate the case files of one run
-//	one <schema-file>            ParseSchema on one file, print its projection (replay)
+//	one <schema-file> [seconds]  ParseSchema on one file (watchdog in seconds, default 5), print its projection
 //	inproc <schema-file>         parse once, generate three times in process, compare (replay)
 //	tables                       unicode.IsSpace / unicode.IsDigit of the toolchain as rune ranges
 //
@@ -39,6 +39,8 @@ type parseResult struct {
 	detail string
 }
 
+var parseWatchdog = 5 * time.Second
+
 func runParse(text string) parseResult {
 	ch := make(chan parseResult, 1)
 	go func() {
@@ -59,7 +61,7 @@ func runParse(text string) parseResult {
 	select {
 	case r := <-ch:
 		return r
-	case <-time.After(5 * time.Second):
+	case <-time.After(parseWatchdog):
 		return parseResult{class: "hang"}
 	}
 }
@@ -139,6 +141,7 @@ func goifyEntries(cases *vc.Out, s *tlparser.Schema) {
 		add(m.Response.Type, true)
 		for _, p := range m.Parameters {
 			add(p.Name, true)
+			add(p.Name, false) // the identifier of the positional argument
 			add(p.Type, true)
 		}
 	}
@@ -256,8 +259,8 @@ func sameFiles(a, b map[string]string) bool {
 	return true
 }
 
-// inProcess parses once and generates: Generate, Generate again on the same Generator, then a second
-// NewGenerator+Generate from the SAME *tlparser.Schema.  All three outputs must be byte-identical and the
+// inProcess parses once and generates 8 times: Generate four times on one Generator, then four more
+// NewGenerator+Generate from the SAME *tlparser.Schema.  All outputs must be byte-identical and the
 // parsed schema must be left as it was.  Result: "ok", "first:<why>" (nothing to compare) or what broke.
 func inProcess(text string) string {
 	s, err := tlparser.ParseSchema(text)
@@ -284,6 +287,8 @@ func inProcess(text string) string {
 		}
 		return ""
 	}
+	// 8 generations from the one parsed schema: Go randomises the order of every range over a map, so an
+	// unsorted range over even a 2-entry map shows up with probability >= 1-2^-7
 	var g1 *gen.Generator
 	if r := run(func() error { var e error; g1, e = gen.NewGenerator(s, "license", d1); return e }); r != "" {
 		return "first:" + r
@@ -292,21 +297,27 @@ func inProcess(text string) string {
 		return "first:" + r
 	}
 	out1 := readDir(d1)
-	if r := run(g1.Generate); r != "" {
-		return "generate-again-on-one-generator " + r
+	for k := 2; k <= 4; k++ {
+		if r := run(g1.Generate); r != "" {
+			return fmt.Sprintf("generate-again-on-one-generator (run %d) %s", k, r)
+		}
+		if !sameFiles(out1, readDir(d1)) {
+			return fmt.Sprintf("generate-again-on-one-generator (run %d) output differs", k)
+		}
 	}
-	if !sameFiles(out1, readDir(d1)) {
-		return "generate-again-on-one-generator output differs"
-	}
-	var g2 *gen.Generator
-	if r := run(func() error { var e error; g2, e = gen.NewGenerator(s, "license", d2); return e }); r != "" {
-		return "second-generator-from-same-schema " + r
-	}
-	if r := run(g2.Generate); r != "" {
-		return "second-generator-from-same-schema " + r
-	}
-	if !sameFiles(out1, readDir(d2)) {
-		return "second-generator-from-same-schema output differs"
+	for k := 5; k <= 8; k++ {
+		os.RemoveAll(d2)
+		os.Mkdir(d2, 0755)
+		var g2 *gen.Generator
+		if r := run(func() error { var e error; g2, e = gen.NewGenerator(s, "license", d2); return e }); r != "" {
+			return fmt.Sprintf("another-generator-from-same-schema (run %d) %s", k, r)
+		}
+		if r := run(g2.Generate); r != "" {
+			return fmt.Sprintf("another-generator-from-same-schema (run %d) %s", k, r)
+		}
+		if !sameFiles(out1, readDir(d2)) {
+			return fmt.Sprintf("another-generator-from-same-schema (run %d) output differs", k)
+		}
 	}
 	// the generator sorts the method list of the schema it was given in place (harmless: same
 	// definitions, other order); anything beyond a reordering of Methods is a change of the input
@@ -761,10 +772,9 @@ func (g *sgen) schemaText(size int, forced bool) (string, []declDef) {
 	r := g.rng
 	g.goNames = map[string]bool{"Client": true}
 	g.style = -1
-	nt := 1 + r.Intn(size)
-	if forced && nt < 4 {
-		nt = 4
-	}
+	// every random schema has at least 3 types with several constructors, 3 enums and a single-constructor
+	// type (and 3 functions, below): each Go map the generator ranges over has several entries
+	nt := 7 + r.Intn(size)
 	types := make([]*rtype, nt)
 	var typeNames []string
 	for i := range types {
@@ -780,11 +790,13 @@ func (g *sgen) schemaText(size int, forced bool) (string, []declDef) {
 		clash := r.Intn(3) == 0
 		kind := r.Intn(4)
 		g.style = -1
+		if ti < 7 {
+			kind = []int{2, 1, 0, 2, 0, 0, 2}[ti]
+		}
 		if forced && ti < 4 {
 			// every compiled schema has a multi-constructor, a single-constructor and an enum type whose
 			// constructor clashes with the type name only after mangling, and an all-lower-case near-clash
 			clash = true
-			kind = []int{2, 1, 0, 2}[ti]
 			g.style = []int{1, 1 + r.Intn(3), 1 + r.Intn(3), 4}[ti]
 		}
 		switch kind {
@@ -808,7 +820,7 @@ func (g *sgen) schemaText(size int, forced bool) (string, []declDef) {
 			}
 		}
 	}
-	nm := r.Intn(size + 1)
+	nm := 3 + r.Intn(size+1)
 	var methods []rdef
 	for i := 0; i < nm; i++ {
 		d := rdef{name: g.ctorName("", false, true), id: g.id(), params: g.params(r.Intn(8), typeNames, true)}
@@ -835,7 +847,10 @@ func (g *sgen) schemaText(size int, forced bool) (string, []declDef) {
 		for _, res := range []string{"Vector<" + enum + ">", "Vector<Bool>", "Vector<int>", "Vector<long>", "Vector<string>", "Vector<bytes>", "Vector<double>",
 			"Vector<" + single + ">", "Vector<" + multi + ">", enum, "Bool", single, multi} {
 			d := rdef{name: g.ctorName("", false, true), id: g.id(), result: res}
-			switch r.Intn(3) {
+			switch r.Intn(4) {
+			case 3: // several arguments of one Go type: only their order tells them apart
+				ty := []string{"long", "int", "string", multi, enum}[r.Intn(5)]
+				d.params = []rparam{{name: "first", typ: ty}, {name: "second", typ: ty}, {name: "flags", typ: "#", flags: true}, {name: "third", typ: ty, opt: true, bit: r.Intn(32)}}
 			case 0:
 				d.params = []rparam{{name: "flags", typ: "#", flags: true}, {name: "a", typ: "int", opt: true, bit: r.Intn(32)}, {name: "b", typ: "string"}}
 			case 1:
@@ -1047,6 +1062,13 @@ func main() {
 		if err != nil {
 			fmt.Fprintln(os.Stderr, err)
 			os.Exit(2)
+		}
+		if len(os.Args) > 3 { // seconds ParseSchema may take (confirmation run of a suspected hang)
+			var secs int
+			fmt.Sscan(os.Args[3], &secs)
+			if secs > 0 {
+				parseWatchdog = time.Duration(secs) * time.Second
+			}
 		}
 		w := bufio.NewWriter(os.Stdout)
 		res := runParse(string(b))
